@@ -208,6 +208,7 @@ Proof.
        | Break v => Ret (v, @nil N)
        end) -> True) by trivial. clear After.
   destruct Ht as [-> | ->]; cbv iota beta.
+  all: rewrite ?(andb_comm (o_only_delimited o) (curr =? 0)).
   all: destruct ((curr =? 0) && o_only_delimited o); [cbn [of_rres_partial]; reflexivity|].
   all: set (fields_m := (0%nat :: starts ++ (if side_eqb (SSome curr) lif0 then [] else [S (length buffer)]))).
   all: assert (Hadd : usize_add (Z.of_nat (length buffer)) 1 = Ret (Z.of_nat (S (length buffer))))
